@@ -59,6 +59,15 @@ def forced(g, i):
         prim = r.choice([("str",), ("num",)])
         return [("alias", "Tu", [], ("tup", [("str",), tail], None)), ("alias", "Br", [], ("inter", [prim, ("obj", [], None)]))], \
                [("Tu", ("ref", "Tu", [])), ("Br", ("ref", "Br", [])), ("Loose", ("union", [("lit", "red"), ("ref", "Br", [])]))]
+    if (i // 8) % 3 == 1:
+        # intersections of inline object types that share a key: same type with different optionality, or a narrower type
+        t = leaf()
+        k2 = r.choice(["name", "tag"])
+        first = ("obj", [("id", r.random() < 0.5, t), (k2, False, leaf())], None)
+        second = ("obj", [("id", r.random() < 0.5, t if r.random() < 0.7 else leaf()), ("extra", r.random() < 0.5, leaf())], None)
+        gen_ = ("alias", "Loose", ["T"], ("inter", [("ref", "T", []), ("obj", [("id", True, t)], None)]))
+        return [("alias", "I", [], ("inter", [first, second])), gen_], \
+               [("I", ("ref", "I", [])), ("L", ("ref", "Loose", [first])), ("Inline", ("inter", [second, first]))]
     return g.forced_program(i // 8)
 
 
